@@ -29,9 +29,14 @@ func init() {
 		Rule: "every (h <= 12, l <= h, l-bit prefix): 16369 words, fields checked; ALL pairs of equal height for h <= 8 (quick) / h <= 10 (thorough) for the order claim; heights 13..32 with prefixes " +
 			"{0..0, 1..1, 10..0, 01..1, random} at every length and sampled pairs per height. Non-trivial+distinct = exact count of enumerated words with l >= 1; hash of (h, a, b) pairs with a != b.",
 		Assumptions: []string{"h <= 32, l <= h, prefix < 2^l"},
-		Flavours:    releaseThenGo126,
-		Exhaustive:  nil,
-		Required:    []string{"field/l=0", "field/l=h", "field/h=32", "field/h=0", "order/ancestor-descendant", "order/left-right-subtrees", "order/equal", "order/h>=13"},
+		Flavours: func(tier string) []string {
+			if tier == "thorough" {
+				return []string{"release", "386", "go126"}
+			}
+			return []string{"release", "386"}
+		},
+		Exhaustive: nil,
+		Required:   []string{"field/l=0", "field/l=h", "field/h=32", "field/h=0", "order/ancestor-descendant", "order/left-right-subtrees", "order/equal", "order/h>=13"},
 		Families: func(c *mon.Config) []mon.Family {
 			hp := c.Pick(8, 12)
 			return []mon.Family{
